@@ -341,6 +341,116 @@ fn drive<RK: RadioKind>(rk: RK, w: &Shared, calls: &[CallSpec<'_>], digest: bool
     Some(out)
 }
 
+/// the same, through `LorawanRadio` (lorawan_radio.rs): `C14 adp <chip> ; <call>@irq@fault@pend ; …`
+/// calls: atx  asetup:<s|c>  arxs  arxc  alp
+fn drive_adapter<RK: RadioKind>(rk: RK, w: &Shared, calls: &[CallSpec<'_>], p_max: u8) -> Option<Vec<CallObs>> {
+    use lora_modulation::BaseBandModulationParams;
+    use lora_phy::lorawan_radio::{Error, LorawanRadio};
+    use lorawan_device::async_device::radio::{PhyRxTx, RfConfig, RxConfig, RxMode as LwRxMode, RxStatus, TxConfig};
+    let _ = p_max;
+    let lora = block_on(LoRa::new(rk, true, FakeDelay(w.clone()))).ok()?;
+    let mut radio: LorawanRadio<RK, FakeDelay, 22> = lora.into();
+    let rf = RfConfig {
+        frequency: FREQ,
+        bb: BaseBandModulationParams::new(SpreadingFactor::_7, Bandwidth::_125KHz, CodingRate::_4_5),
+        max_payload_len: 255,
+    };
+    let mut out = vec![];
+    for c in calls {
+        {
+            let mut m = w.borrow_mut();
+            m.log.clear();
+            m.step = 0;
+            m.fault = c.fault;
+            m.pend_at = c.pend;
+            m.irq_script = c.irq.iter().copied().collect();
+            m.irq_reads = 0;
+        }
+        let mut buf = [0u8; 255];
+        let parts: Vec<&str> = c.call.split(':').collect();
+        let show_e = |e: Error| -> String {
+            match e {
+                Error::Radio(r) => show_err(&r),
+                Error::NoRxParams => "err:NoRxParams".into(),
+            }
+        };
+        let res: Option<Option<String>> = guarded(AssertUnwindSafe(|| {
+            Some(match parts.as_slice() {
+                ["atx"] => match block_on_or_drop(radio.tx(TxConfig { pw: 14, rf }, &[1, 2, 3])) {
+                    None => "DROPPED".into(),
+                    Some(Ok(_)) => "ok".into(),
+                    Some(Err(e)) => show_e(e),
+                },
+                ["asetup", k] => {
+                    let mode = match *k {
+                        "s" => LwRxMode::Single { ms: 0 },
+                        "c" => LwRxMode::Continuous,
+                        _ => return None,
+                    };
+                    match block_on_or_drop(radio.setup_rx(RxConfig { rf, mode })) {
+                        None => "DROPPED".into(),
+                        Some(Ok(())) => "ok".into(),
+                        Some(Err(e)) => show_e(e),
+                    }
+                }
+                ["arxs"] => match block_on_or_drop(radio.rx_single(&mut buf)) {
+                    None => "DROPPED".into(),
+                    Some(Ok(RxStatus::Rx(n, _q))) => format!("ok:rx({},{})", n, hex(&buf[..n])),
+                    Some(Ok(RxStatus::RxTimeout)) => "ok:timeout".into(),
+                    Some(Err(e)) => show_e(e),
+                },
+                ["arxc"] => match block_on_or_drop(radio.rx_continuous(&mut buf)) {
+                    None => "DROPPED".into(),
+                    Some(Ok((n, _q))) => format!("ok:rx({},{})", n, hex(&buf[..n])),
+                    Some(Err(e)) => show_e(e),
+                },
+                ["alp"] => match block_on_or_drop(radio.low_power()) {
+                    None => "DROPPED".into(),
+                    Some(Ok(())) => "ok".into(),
+                    Some(Err(e)) => show_e(e),
+                },
+                _ => return None,
+            })
+        }));
+        let (res_s, stop) = match res {
+            None => ("PANIC".to_string(), true),
+            Some(None) => return None,
+            Some(Some(s)) => (s, false),
+        };
+        let m = w.borrow();
+        let tr = m.transcript();
+        let irq_positions: Vec<usize> = {
+            let mut v = vec![];
+            let mut step = 0usize;
+            for t in &m.log {
+                if t.starts_with('D') {
+                    continue;
+                }
+                if t.starts_with('I') {
+                    v.push(step);
+                }
+                step += 1;
+            }
+            v
+        };
+        out.push(CallObs {
+            result: res_s.clone(),
+            log: m.log.clone(),
+            mode_after: RadioMode::Standby,
+            cold_after: false,
+            line: format!("{} {}", res_s, fnv_str(&tr)),
+            steps: m.step,
+            irq_positions,
+            irq_reads: m.irq_reads,
+            stop,
+        });
+        if stop {
+            break;
+        }
+    }
+    Some(out)
+}
+
 thread_local! {
     /// transcript of `LoRa::new` of the last `drive`
     static NEW_LOG: std::cell::RefCell<Vec<String>> = std::cell::RefCell::new(vec![]);
@@ -360,6 +470,10 @@ fn irq_default(cfg: &ChipCfg) -> u16 {
 }
 
 fn run_seq(chip: &str, calls: &[&str], digest: bool) -> Option<Vec<CallObs>> {
+    run_seq_any(chip, calls, digest, false)
+}
+
+fn run_seq_any(chip: &str, calls: &[&str], digest: bool, adapter: bool) -> Option<Vec<CallObs>> {
     let cfg = parse_chip(chip)?;
     let specs: Vec<CallSpec<'_>> = calls.iter().map(|c| parse_call(c)).collect::<Option<Vec<_>>>()?;
     // the retention list of a chip that has just been reset is empty (register 0x029F = 0)
@@ -376,7 +490,11 @@ fn run_seq(chip: &str, calls: &[&str], digest: bool) -> Option<Vec<CallObs>> {
                 FakeIv(w.clone()),
                 sx126x::Config { chip: $chip, tcxo_ctrl: cfg.tcxo.map(tcxo), use_dcdc: cfg.dcdc, rx_boost: cfg.boost },
             );
-            drive(rk, &w, &specs, digest)
+            if adapter {
+                drive_adapter(rk, &w, &specs, 22)
+            } else {
+                drive(rk, &w, &specs, digest)
+            }
         }};
     }
     macro_rules! with127 {
@@ -386,7 +504,11 @@ fn run_seq(chip: &str, calls: &[&str], digest: bool) -> Option<Vec<CallObs>> {
                 FakeIv(w.clone()),
                 lora_phy::sx127x::Config { chip: $chip, tcxo_used: cfg.tcxo_used, tx_boost: cfg.tx_boost, rx_boost: cfg.boost },
             );
-            drive(rk, &w, &specs, digest)
+            if adapter {
+                drive_adapter(rk, &w, &specs, 20)
+            } else {
+                drive(rk, &w, &specs, digest)
+            }
         }};
     }
     match cfg.variant {
@@ -446,6 +568,8 @@ fn parse_line(op: &str) -> Option<(bool, String, Vec<String>)> {
         (true, r)
     } else if let Some(r) = rest.strip_prefix("inv ") {
         (true, r)
+    } else if let Some(r) = rest.strip_prefix("adp ") {
+        (true, r)
     } else if let Some(r) = rest.strip_prefix("seq ") {
         (false, r)
     } else {
@@ -461,6 +585,12 @@ pub fn eval(op: &str) -> String {
     let cr: Vec<&str> = calls.iter().map(|s| s.as_str()).collect();
     if op.starts_with("C14 inv ") {
         return verdict(&chip, &cr).unwrap_or("bad-op".into());
+    }
+    if op.starts_with("C14 adp ") {
+        return match run_seq_any(&chip, &cr, true, true) {
+            Some(obs) => obs.iter().map(|o| o.line.clone()).collect::<Vec<_>>().join(" ; "),
+            None => "bad-op".into(),
+        };
     }
     match run_seq(&chip, &cr, digest) {
         Some(obs) => obs.iter().map(|o| o.line.clone()).collect::<Vec<_>>().join(" ; "),
@@ -597,6 +727,53 @@ pub fn run(tier: &str, seed: u64, dir: &str) {
                 }
             }
         }
+        // the LoRaWAN adapter: every sequence of its five calls up to depth 3, faults / drops / outcomes on every call
+        let adp = ["atx", "asetup:s", "asetup:c", "arxs", "arxc", "alp"];
+        let mut aseqs: Vec<Vec<&str>> = vec![];
+        for a in adp {
+            aseqs.push(vec![a]);
+            for b in adp {
+                aseqs.push(vec![a, b]);
+                for c in adp {
+                    aseqs.push(vec![a, b, c]);
+                }
+            }
+        }
+        for sq in &aseqs {
+            let base = plain(sq);
+            let Some(obs) = run_seq_any(chip, &base.iter().map(|x| x.as_str()).collect::<Vec<_>>(), true, true) else { continue };
+            let op = line("adp", chip, &base);
+            let ans = obs.iter().map(|o| o.line.clone()).collect::<Vec<_>>().join(" ; ");
+            sink.case(&op, &ans, &format!("adapter-plain-{}", classify(&ans)), true);
+            if obs.len() < sq.len() {
+                continue;
+            }
+            for (j, o) in obs.iter().enumerate() {
+                for k in 0..o.steps {
+                    let mut v = base.clone();
+                    v[j] = format!("{}@-@{}@-", sq[j], k);
+                    let op = line("adp", chip, &v);
+                    let a = eval(&op);
+                    sink.case(&op, &a, &format!("adapter-fault-{}", classify(&a)), true);
+                }
+                for &k in &o.irq_positions {
+                    let mut v = base.clone();
+                    v[j] = format!("{}@-@-@{}", sq[j], k);
+                    let op = line("adp", chip, &v);
+                    let a = eval(&op);
+                    sink.case(&op, &a, &format!("adapter-drop-{}", classify(&a)), true);
+                }
+                if o.irq_reads > 0 {
+                    for sc in irq_scripts(is126) {
+                        let mut v = base.clone();
+                        v[j] = format!("{}@{}@-@-", sq[j], sc.iter().map(|x| x.to_string()).collect::<Vec<_>>().join(","));
+                        let op = line("adp", chip, &v);
+                        let a = eval(&op);
+                        sink.case(&op, &a, &format!("adapter-irq-{}", classify(&a)), true);
+                    }
+                }
+            }
+        }
         // a few verbose lines as readable samples
         for s in [vec!["ptx", "tx"], vec!["prx:s", "rx"], vec!["sleep:0", "prx:d", "srx"], vec!["pcad", "cad"]] {
             let op = line("seq", chip, &plain(&s));
@@ -606,7 +783,7 @@ pub fn run(tier: &str, seed: u64, dir: &str) {
     }
     sink.finish(
         dir,
-        "every sequence of API calls up to the tier's depth (3 quick / 4 thorough) over the 16-call alphabet {init, sleep warm/cold, prepare_for_tx, tx, prepare_for_rx single/continuous/duty-cycle, start_rx, complete_rx, rx, rx_switch_channel, listen, prepare_for_cad, cad, set_lora_sync_word} on the real LoRa<Sx126x<Sx1262>> and LoRa<Sx127x<Sx1276>> (thorough: + Sx1261 with TCXO, Sx1272 with PA_BOOST) over the fake chips; for each sequence (depth 4: a seeded fortieth): an I/O fault at every SPI / busy / IRQ / RF-switch / reset step of the calls, a future dropped at every await_irq, 11 chip interrupt outcomes (done, timeout, CRC error, header error, spurious, preamble first, CAD done/detected) on every call that reads the IRQ status, and every fault position inside the error path such an outcome triggers. Compared per call: result, the full I/O transcript (hashed in digest lines) and verif_state() = (radio_mode, cold_start, calibrate_image); the Lean side also evaluates I1-I5 on the run. Distinct = distinct op lines; every line is a concrete scenario.",
+        "every sequence of API calls up to the tier's depth (3 quick / 4 thorough) over the 16-call alphabet {init, sleep warm/cold, prepare_for_tx, tx, prepare_for_rx single/continuous/duty-cycle, start_rx, complete_rx, rx, rx_switch_channel, listen, prepare_for_cad, cad, set_lora_sync_word} on the real LoRa<Sx126x<Sx1262>> and LoRa<Sx127x<Sx1276>> (thorough: + Sx1261 with TCXO, Sx1272 with PA_BOOST) over the fake chips; for each sequence (depth 4: a seeded fortieth): an I/O fault at every SPI / busy / IRQ / RF-switch / reset step of the calls, a future dropped at every await_irq, 11 chip interrupt outcomes (done, timeout, CRC error, header error, spurious, preamble first, CAD done/detected) on every call that reads the IRQ status, and every fault position inside the error path such an outcome triggers. Compared per call: result, the full I/O transcript (hashed in digest lines) and verif_state() = (radio_mode, cold_start, calibrate_image); the Lean side also evaluates I1-I5 on the run, and `inv` lines evaluate the same invariants on the real driver's own transcript with an independent Rust tracker (expected verdict: ok). `adp` lines: every sequence up to depth 3 of the LoRaWAN adapter's calls (LorawanRadio tx / setup_rx single+continuous / rx_single / rx_continuous / low_power) with the same faults, drops and interrupt outcomes. Distinct = distinct op lines; every line is a concrete scenario.",
         false,
         serde_json::json!({"alphabet": ALPHABET, "depth": depth, "chips": chips}),
     );
